@@ -351,8 +351,8 @@ func (im *cronImpl) apply(o cronOp, hi int64) (cronObs, error) {
 		go func() { im.worker.Work(); close(done) }()
 		select {
 		case <-done:
-		case <-time.After(20 * time.Second):
-			return obs, fmt.Errorf("Work() did not return within 20s (livelock)")
+		case <-time.After(3 * time.Second):
+			return obs, fmt.Errorf("Work() did not return within 3s (livelock)")
 		}
 		obs.Reqs = append(obs.Reqs, im.rec.reqs...)
 		sort.SliceStable(obs.Reqs, func(a, b int) bool { return obs.Reqs[a][0] < obs.Reqs[b][0] })
@@ -506,7 +506,11 @@ func runCron(ctx *RunCtx) *Result {
 				if strings.Contains(err.Error(), "livelock") {
 					timeouts++
 				}
-				res.Hits = append(res.Hits, MonitorHit{"C01", "C01/work-error", err.Error(), cs})
+				sig := "C01/work-error"
+				if strings.Contains(err.Error(), "livelock") {
+					sig = "C01/work-livelock-clock-advances"
+				}
+				res.Hits = append(res.Hits, MonitorHit{"C01", sig, err.Error(), cs})
 				return false
 			}
 			cs.Ops = append(cs.Ops, o)
@@ -551,7 +555,16 @@ func runCron(ctx *RunCtx) *Result {
 				}
 				now = ((now/nsPerSec)+adv)*nsPerSec + Pick(c, []int64{0, 0, 1, 250000000, 999999999})
 				res.Count("tick")
-				addOp(cronOp{Kind: "tick", Now: now})
+				top := cronOp{Kind: "tick", Now: now}
+				if c.Chance(1, 6) {
+					// the controller clock keeps running while Work() executes
+					step := Pick(c, []int64{1, 1000000, 400000000, 1000000000})
+					for r := int64(1); r <= 60; r++ {
+						top.Readings = append(top.Readings, now+r*step)
+					}
+					res.Count("tick-clock-advances-during-work")
+				}
+				addOp(top)
 			case k < 14: // update
 				if len(names) == 0 {
 					continue
@@ -639,7 +652,7 @@ func runCron(ctx *RunCtx) *Result {
 			case "init":
 				ops = append(ops, CApp("OInit", CZ(g.cfg.MaxDowntime), CZ(o.Now)))
 			case "tick":
-				ops = append(ops, CApp("OTick", COptZ(g.cfg.MaxMissed), CZ(o.Now), CListZ(o.Readings)))
+				ops = append(ops, CApp("OTick", COptZ(g.cfg.MaxMissed), CZ(o.Now)))
 			case "create", "update":
 				vdefs++
 				vn := fmt.Sprintf("jv_%d_%d", i, vdefs)
@@ -679,6 +692,23 @@ func cPairsZ(ps [][2]int64) string {
 }
 
 // ---- monitor: the property itself, judged on the implementation's requests ----
+//
+// The monitor is a direct, independent restatement of C01/C03/C04 as an expected
+// request list per JobConfig and tick; it never consults the model.  Per key it keeps
+// the API version the heap is based on, the number of schedule changes still in
+// flight (event not yet delivered, or delivered and waiting for the next tick), and
+// the "basis": the instant after which every match inside the window is due.
+//   start/restart at now0:  basis = max(lastScheduled, now0 - maxDowntime) if ever
+//                           scheduled else now0; then max with lastUpdated and
+//                           notBefore - 1ns                                   (C04)
+//   tick at now:            expected = the first maxMissed matches in (basis, now]
+//                           inside [notBefore, notAfter]; basis := now         (C01)
+//   schedule change:        takes effect at the tick that processes its flush;
+//                           basis := that tick's clock (nothing back-dated)    (C03)
+//   create while running:   basis := clock of the latest tick                  (C03)
+//   disable / delete:       nothing expected                                   (C03)
+// While a change of a key is in flight only the universal checks (never early) apply
+// to it: the property does not say which of the two schedules governs that instant.
 
 func inList(l []int64, x int64) bool {
 	i := sort.Search(len(l), func(i int) bool { return l[i] >= x })
@@ -698,175 +728,254 @@ func (v *jcVersion) inWindow(t int64) bool {
 	return (v.Nbf == nil || t >= *v.Nbf) && (v.Naf == nil || t <= *v.Naf)
 }
 
-// cronMonitor checks, on the implementation's observations: every request is not
-// early, matches the JobConfig's current API version and lies in its window
-// (C01/C03), per-key requests strictly increase (C01), nothing at or before
-// lastScheduled and nothing back-dated for a never-scheduled JobConfig right after a
-// (re)start (C04), and steady-state completeness (C01/C03): a JobConfig that is
-// active in the API and was (re)based at least one tick ago gets every match in
-// (previous tick, this tick] unless the per-tick cap was hit.
+// due lists the matches of v in (from, to] (ns bounds) inside the window, ascending.
+func (v *jcVersion) due(from, to int64) []int64 {
+	seen := map[int64]bool{}
+	var out []int64
+	for _, l := range v.fires {
+		i := sort.Search(len(l), func(i int) bool { return l[i]*nsPerSec > from })
+		for ; i < len(l) && l[i]*nsPerSec <= to; i++ {
+			if !seen[l[i]] && v.inWindow(l[i]) {
+				seen[l[i]] = true
+				out = append(out, l[i])
+			}
+		}
+	}
+	sort.Slice(out, func(a, b int) bool { return out[a] < out[b] })
+	return out
+}
+
+func maxI(a, b int64) int64 {
+	if a > b {
+		return a
+	}
+	return b
+}
+
+type cronKeyState struct {
+	v        *jcVersion // version the schedule is based on (nil: not scheduled)
+	basis    int64
+	inflight int
+	how      string // how the key got its current basis: "start", "flush", "create", "recreate"
+}
+
 func cronMonitor(res *Result, cs *cronCase) {
 	maxMissed := int64(5)
 	if cs.Cfg.MaxMissed != nil {
 		maxMissed = *cs.Cfg.MaxMissed
 	}
-	api := map[int64]*jcVersion{}
-	lastReq := map[int64]int64{}
-	type basis struct {
-		since    int64 // ns: tick time from which steady state is expected
-		ok       bool
-		uid      string
-		stableAt int // op index at which the current version became the flushed one
+	thr := cs.Cfg.MaxDowntime
+	if thr <= 0 {
+		thr = 300
 	}
-	steady := map[int64]*basis{}
-	pendingFlush := map[int64]bool{} // changed versions not yet delivered+ticked
-	undelivered := []int64{}         // keys of pending events, in order (-1 = not a flush)
-	chanKeys := map[int64]bool{}
+	thr *= nsPerSec
+	api := map[int64]*jcVersion{}
+	st := map[int64]*cronKeyState{}
+	type ev struct {
+		key     int64
+		v       *jcVersion // nil for delete
+		changed bool
+	}
+	var undelivered, inchan []ev
+	everDeleted := map[int64]bool{}
 	started := false
-	var prevTick int64 = -1
-	var initNow int64
-	firstTickAfterInit := false
+	var lastClock int64
 	hit := func(prop, sig, what string) {
 		res.Hits = append(res.Hits, MonitorHit{prop, sig, what, cs})
+	}
+	rebase := func(k int64, v *jcVersion, basis int64, how string) {
+		s := st[k]
+		if s == nil {
+			s = &cronKeyState{}
+			st[k] = s
+		}
+		s.v, s.basis, s.how = v, basis, how
 	}
 	for i, o := range cs.Ops {
 		switch o.Kind {
 		case "create":
 			api[o.JC.Key] = o.JC
-			delete(lastReq, o.JC.Key)
 			if started {
-				// created while running: must be scheduled from now on (C03). Steady-state
-				// expectation starts at the next tick.
-				steady[o.JC.Key] = &basis{since: -1, uid: o.JC.UID}
-				pendingFlush[o.JC.Key] = false
+				how := "create"
+				if everDeleted[o.JC.Key] {
+					how = "recreate"
+				}
+				undelivered = append(undelivered, ev{key: -1})
+				s := st[o.JC.Key]
+				infl := 0
+				if s != nil {
+					infl = s.inflight
+				}
+				rebase(o.JC.Key, o.JC, lastClock, how)
+				st[o.JC.Key].inflight = infl
 			}
 		case "update":
 			api[o.JC.Key] = o.JC
-			if o.Changed {
-				pendingFlush[o.JC.Key] = true
-				undelivered = append(undelivered, o.JC.Key)
-				if b := steady[o.JC.Key]; b != nil {
-					b.ok = false
+			if started {
+				undelivered = append(undelivered, ev{key: o.JC.Key, v: o.JC, changed: o.Changed})
+				if o.Changed {
+					if st[o.JC.Key] == nil {
+						st[o.JC.Key] = &cronKeyState{}
+					}
+					st[o.JC.Key].inflight++
+				} else if s := st[o.JC.Key]; s != nil && s.inflight == 0 {
+					// status-only update: the heap is untouched, but later bumps read the new object
+					s.v = o.JC
 				}
-			} else {
-				undelivered = append(undelivered, -1)
 			}
 		case "delete":
 			delete(api, o.Key)
-			delete(steady, o.Key)
-			undelivered = append(undelivered, o.Key)
+			everDeleted[o.Key] = true
+			if started {
+				undelivered = append(undelivered, ev{key: o.Key, v: nil, changed: true})
+				if st[o.Key] == nil {
+					st[o.Key] = &cronKeyState{}
+				}
+				st[o.Key].inflight++
+				st[o.Key].v = nil // deleted: nothing is expected from now on
+			}
 		case "deliver":
 			if len(undelivered) > 0 {
-				if k := undelivered[0]; k >= 0 {
-					chanKeys[k] = true
-				}
+				e := undelivered[0]
 				undelivered = undelivered[1:]
+				if e.key >= 0 && e.changed {
+					inchan = append(inchan, e)
+				}
 			}
 		case "init":
 			started = true
-			initNow = o.Now
-			firstTickAfterInit = true
-			prevTick = -1
-			undelivered = nil
-			chanKeys = map[int64]bool{}
-			steady = map[int64]*basis{}
-			pendingFlush = map[int64]bool{}
+			lastClock = o.Now
+			undelivered, inchan = nil, nil
+			st = map[int64]*cronKeyState{}
 			for k, v := range api {
-				steady[k] = &basis{since: -1, uid: v.UID}
+				var ref int64
+				if v.Ls != nil {
+					ref = maxI(*v.Ls*nsPerSec, o.Now-thr)
+				} else {
+					ref = o.Now
+				}
+				if v.Lu != nil {
+					ref = maxI(ref, *v.Lu*nsPerSec)
+				}
+				if v.Nbf != nil {
+					ref = maxI(ref, *v.Nbf*nsPerSec-1)
+				}
+				rebase(k, v, ref, "start")
 			}
 		case "tick":
 			now := o.Now
-			cnt := map[int64]int64{}
-			for _, r := range cs.Obs[i].Reqs {
-				k, t := r[0], r[1]
-				cnt[k]++
-				if t*nsPerSec > now {
-					hit("C01", "C01/early", fmt.Sprintf("op %d: key %d requested for %d at clock %d ns", i, k, t, now))
-				}
-				v := api[k]
-				if v == nil {
-					hit("C03", "C03/request-for-deleted", fmt.Sprintf("op %d: key %d requested for %d but the JobConfig is not in the API", i, k, t))
-					continue
-				}
-				if !v.active() {
-					hit("C03", "C03/request-while-inactive", fmt.Sprintf("op %d: key %d requested for %d but its schedule is disabled/absent", i, k, t))
-				} else if !v.matches(t) {
-					sig := "C03/off-schedule"
-					if !pendingFlush[k] && !chanKeys[k] {
-						sig = "C01/off-schedule"
-					}
-					hit(sig[:3], sig, fmt.Sprintf("op %d: key %d requested for %d which matches none of its current expressions", i, k, t))
-				} else if !v.inWindow(t) {
-					sig := "C03/outside-window"
-					if firstTickAfterInit || (!pendingFlush[k]) {
-						sig = "C01/outside-window"
-					}
-					hit(sig[:3], sig, fmt.Sprintf("op %d: key %d requested for %d outside notBefore/notAfter", i, k, t))
-				}
-				if lr, ok := lastReq[k]; ok && t <= lr {
-					hit("C01", "C01/not-increasing", fmt.Sprintf("op %d: key %d requested for %d after %d", i, k, t, lr))
-				}
-				lastReq[k] = t
-				if firstTickAfterInit {
-					if v.Ls != nil && t <= *v.Ls {
-						hit("C04", "C04/repeat-at-or-before-lastScheduled", fmt.Sprintf("op %d: key %d requested for %d <= lastScheduled %d", i, k, t, *v.Ls))
-					}
-					if v.Ls == nil && t*nsPerSec <= initNow {
-						hit("C04", "C04/back-scheduled-never-scheduled", fmt.Sprintf("op %d: key %d (never scheduled) requested for %d <= start %d", i, k, t, initNow))
+			lastClock = now
+			// flushes processed at the top of this tick
+			for _, e := range inchan {
+				s := st[e.key]
+				s.inflight--
+				if e.v != nil {
+					if cur, ok := api[e.key]; ok && cur.UID == e.v.UID && s.inflight == 0 {
+						rebase(e.key, cur, now, "flush")
 					}
 				}
 			}
-			// completeness in steady state
-			for k, b := range steady {
-				v := api[k]
-				if v == nil || v.UID != b.uid {
+			inchan = nil
+			got := map[int64][]int64{}
+			for _, r := range cs.Obs[i].Reqs {
+				got[r[0]] = append(got[r[0]], r[1])
+				if r[1]*nsPerSec > now {
+					hit("C01", "C01/early", fmt.Sprintf("op %d: key %d requested for %d at clock %d ns", i, r[0], r[1], now))
+				}
+			}
+			keys := map[int64]bool{}
+			for k := range st {
+				keys[k] = true
+			}
+			for k := range got {
+				keys[k] = true
+			}
+			for k := range keys {
+				s := st[k]
+				if s == nil {
+					hit("C03", "C03/request-for-unknown", fmt.Sprintf("op %d: key %d requested %v but no such JobConfig exists", i, k, got[k]))
 					continue
 				}
-				if b.ok && b.since >= 0 && prevTick >= 0 && v.active() && cnt[k] < maxMissed {
-					for _, l := range v.fires {
-						for _, t := range l {
-							if t*nsPerSec > prevTick && t*nsPerSec <= now && v.inWindow(t) {
-								found := false
-								for _, r := range cs.Obs[i].Reqs {
-									if r[0] == k && r[1] == t {
-										found = true
-									}
-								}
-								if !found {
-									sig := "C01/missed"
-									if b.stableAt > 0 {
-										sig = "C03/missed-after-change"
-									}
-									hit(sig[:3], sig, fmt.Sprintf("op %d: key %d due at %d in (%d,%d] was not requested", i, k, t, prevTick, now))
-								}
-							}
+				if s.inflight > 0 {
+					continue
+				}
+				var want []int64
+				if s.v != nil && api[k] != nil && s.v.active() {
+					want = s.v.due(s.basis, now)
+					if int64(len(want)) > maxMissed {
+						if maxMissed < 0 {
+							want = nil
+						} else {
+							want = want[:maxMissed]
 						}
 					}
 				}
-			}
-			// flushes processed by this tick: everything delivered before it
-			for k := range chanKeys {
-				pendingFlush[k] = false
-				if b := steady[k]; b != nil {
-					b.ok = false
-					b.since = -1
-					b.stableAt = i
+				if !eqInt64s(want, got[k]) {
+					prop, sig := classifyCron(s, api[k], want, got[k], everDeleted[k])
+					hit(prop, sig, fmt.Sprintf("op %d (tick at %d): key %d (%s at basis %d): expected requests %v, implementation requested %v", i, now, k, s.how, s.basis, want, got[k]))
 				}
+				s.basis = maxI(s.basis, now)
 			}
-			chanKeys = map[int64]bool{}
-			for k, b := range steady {
-				if pendingFlush[k] {
-					continue
-				}
-				if b.since < 0 {
-					b.since = now
-					// a JobConfig created while running has no flush: the property still
-					// expects it to be scheduled from its creation on.
-					b.ok = true
-				}
-			}
-			prevTick = now
-			firstTickAfterInit = false
 		}
+	}
+}
+
+func eqInt64s(a, b []int64) bool {
+	if len(a) != len(b) {
+		return false
+	}
+	for i := range a {
+		if a[i] != b[i] {
+			return false
+		}
+	}
+	return true
+}
+
+// classifyCron names the causal situation of a deviation (the signature used by the
+// known-findings file).
+func classifyCron(s *cronKeyState, cur *jcVersion, want, got []int64, wasDeleted bool) (string, string) {
+	extra := []int64{}
+	ws := map[int64]bool{}
+	for _, w := range want {
+		ws[w] = true
+	}
+	for _, g := range got {
+		if !ws[g] {
+			extra = append(extra, g)
+		}
+	}
+	switch s.how {
+	case "create":
+		if len(got) == 0 {
+			return "C03", "C03/created-while-running-never-scheduled"
+		}
+		return "C03", "C03/created-while-running-wrong-requests"
+	case "recreate":
+		if len(extra) > 0 {
+			return "C03", "C03/recreated-fires-stale-entry"
+		}
+		return "C03", "C03/recreated-never-scheduled"
+	case "flush":
+		if cur != nil && len(extra) > 0 {
+			allBefore := cur.Nbf != nil
+			for _, e := range extra {
+				if !(cur.Nbf != nil && e < *cur.Nbf && cur.matches(e)) {
+					allBefore = false
+				}
+			}
+			if allBefore {
+				return "C03", "C03/fires-before-notBefore-after-update"
+			}
+		}
+		if len(extra) > 0 {
+			return "C03", "C03/unexpected-request-after-change"
+		}
+		return "C03", "C03/missed-after-change"
+	default: // start
+		if len(extra) > 0 {
+			return "C01", "C01/unexpected-request"
+		}
+		return "C01", "C01/missed"
 	}
 }
